@@ -1,6 +1,7 @@
 import PsyVerif.Model.LoopTrans
 import PsyVerif.Lemmas.MiniFSem
 import PsyVerif.Lemmas.LoopTransChunk
+import PsyVerif.Lemmas.LoopTransFuse
 /-! # C05 — Accepted loop transformations preserve serial semantics
 
 Models: `PsyVerif/Model/LoopTrans.lean` (`chunkValidate/chunkApply`, `fuseValidate/fuseApply`,
@@ -60,6 +61,28 @@ def ChunkFresh (t : ChunkTarget) : Prop :=
 
 instance (t : ChunkTarget) : Decidable (ChunkFresh t) := by unfold ChunkFresh; exact inferInstance
 
+theorem fuseValidate_bounds {t : FuseTarget} (h : fuseValidate t = .ok ()) :
+    t.l1.lo = t.l2.lo ∧ t.l1.hi = t.l2.hi ∧ t.l1.st = t.l2.st := by
+  unfold fuseValidate at h
+  split at h
+  · cases h
+  · split at h
+    · cases h
+    · rename_i hb
+      simp at hb
+      exact ⟨hb.1.1, hb.1.2, hb.2⟩
+
+/-- side condition of the fusion theorem: arguments in program order, same loop variable, loop
+variable and header variables not written by the bodies, and no variable written by one body
+is read or written by the other (variable-level independence) -/
+def FuseIndep (t : FuseTarget) : Prop :=
+  t.reversed = false ∧ t.l1.v = t.l2.v ∧ t.l1.v ∉ wVars t.l2.body ∧
+  (∀ x ∈ eVars t.l1.lo ++ eVars t.l1.hi ++ eVars t.l1.st, x ≠ t.l1.v ∧ x ∉ wVars t.l1.body) ∧
+  (∀ x ∈ wVars t.l1.body, x ∉ rVars t.l2.body ∧ x ∉ wVars t.l2.body) ∧
+  (∀ x ∈ wVars t.l2.body, x ∉ rVars t.l1.body ∧ x ∉ wVars t.l1.body)
+
+instance (t : FuseTarget) : Decidable (FuseIndep t) := by unfold FuseIndep; exact inferInstance
+
 /-! ## The property -/
 
 /-! ### ChunkLoopTrans -/
@@ -110,6 +133,21 @@ theorem C05_chunk_zerotrip_counterexample :
     ¬ ObsEq [chunkZeroWitness.out, chunkZeroWitness.el] (chunkApply chunkZeroWitness) chunkZeroWitness.l.stmt := by
   intro h
   have := h (storeOf []) 0 0 0 (by decide)
+  revert this
+  decide
+
+/-- `do i = 1, i + 3 ; a(i) = a(i) + 1` with `chunksize = 2` (stop expression mentions `i`) -/
+def chunkStopWitness : ChunkTarget :=
+  ⟨⟨0, .lit 1, .bin .add (.var 0) (.lit 3), .lit 1,
+    .store1 1 (.var 0) (.bin .add (.idx1 1 (.var 0)) (.lit 1))⟩, 2, false, 2, 3⟩
+
+/-- the stop expression is copied into every chunk and re-evaluated after the loop variable has
+changed: the second chunk runs up to `i = 4` -/
+theorem C05_chunk_stop_loopvar_counterexample :
+    chunkValidate chunkStopWitness = .ok () ∧
+    ¬ ObsEq [chunkStopWitness.out, chunkStopWitness.el] (chunkApply chunkStopWitness) chunkStopWitness.l.stmt := by
+  refine ⟨by decide, fun h => ?_⟩
+  have := h (storeOf []) 1 4 0 (by decide)
   revert this
   decide
 
@@ -166,5 +204,130 @@ example : chunkApply chunkZeroWitness =
 example : chunkValidate ⟨⟨0, .lit 1, .var 4, .lit 1, .assign 4 (.lit 1)⟩, 4, false, 2, 3⟩ = .error .boundWritten := by decide
 example : chunkValidate ⟨⟨0, .lit 1, .var 4, .lit 5, .skip⟩, 4, false, 2, 3⟩ = .error .stepTooLarge := by decide
 example : chunkValidate ⟨⟨0, .lit 1, .var 4, .un .neg (.lit 1), .skip⟩, 4, false, 2, 3⟩ = .error .nonLiteralStep := by decide
+
+/-! ### LoopFuseTrans -/
+
+/-- full statement for fusion (the variable of the second loop is documented as no longer
+updated when it is renamed, so it is hidden when the two variables differ) -/
+def C05_fuse_statement : Prop :=
+  ∀ t : FuseTarget, fuseValidate t = .ok () →
+    ObsEq (if t.l1.v = t.l2.v then [] else [t.l2.v]) (fuseApply t) t.original
+
+/-- `do i=1,3: a(i)=b(i)+1` followed by `do i=1,3: c(i)=a(i+1)` (ids: i=0, a=1, b=2, c=3) -/
+def fuseDistanceWitness : FuseTarget :=
+  ⟨⟨0, .lit 1, .lit 3, .lit 1, .store1 1 (.var 0) (.bin .add (.idx1 2 (.var 0)) (.lit 1))⟩,
+   ⟨0, .lit 1, .lit 3, .lit 1, .store1 3 (.var 0) (.idx1 1 (.bin .add (.var 0) (.lit 1)))⟩, true, false⟩
+
+/-- `apply(second, first)` for `do i=1,3: a(i)=i` followed by `do i=1,3: c(i)=a(i)` -/
+def fuseReversedWitness : FuseTarget :=
+  ⟨⟨0, .lit 1, .lit 3, .lit 1, .store1 3 (.var 0) (.idx1 1 (.var 0))⟩,
+   ⟨0, .lit 1, .lit 3, .lit 1, .store1 1 (.var 0) (.var 0)⟩, true, true⟩
+
+/-- no dependence-distance test: accepted, and the fused loop reads `a(2)` before writing it -/
+theorem C05_fuse_distance_counterexample :
+    fuseValidate fuseDistanceWitness = .ok () ∧
+    ¬ ObsEq [] (fuseApply fuseDistanceWitness) fuseDistanceWitness.original := by
+  refine ⟨by decide, fun h => ?_⟩
+  have := h (storeOf []) 3 1 0 (by decide)
+  revert this
+  decide
+
+/-- the position test uses `abs`: fusing (second, first) is accepted and reverses program order -/
+theorem C05_fuse_reversed_counterexample :
+    fuseValidate fuseReversedWitness = .ok () ∧
+    ¬ ObsEq [] (fuseApply fuseReversedWitness) fuseReversedWitness.original := by
+  refine ⟨by decide, fun h => ?_⟩
+  have := h (storeOf []) 3 1 0 (by decide)
+  revert this
+  decide
+
+theorem C05_fuse_statement_false : ¬ C05_fuse_statement := fun h =>
+  C05_fuse_distance_counterexample.2 (h fuseDistanceWitness C05_fuse_distance_counterexample.1)
+
+/-- **Fusion is sound for independent bodies**: exact store equality (loop variable included),
+for all bounds, steps and trip counts.  Missing part: bodies that share a written variable
+(then soundness needs the dependence-distance test that `LoopFuseTrans` lacks — refuted by
+`C05_fuse_distance_counterexample`), reversed arguments, differing loop variables. -/
+theorem C05_fuse_sound_partial (t : FuseTarget) (hacc : fuseValidate t = .ok ()) (hs : FuseIndep t)
+    (σ : Store) : exec (fuseApply t) σ = exec t.original σ := by
+  obtain ⟨hlo, hhi, hst⟩ := fuseValidate_bounds hacc
+  obtain ⟨hrev, hv, hv2, hb, h12, h21⟩ := hs
+  obtain ⟨⟨v1, lo1, hi1, st1, b1⟩, ⟨v2, lo2, hi2, st2, b2⟩, adj, rev⟩ := t
+  simp only at hlo hhi hst hrev hv hv2 hb h12 h21
+  subst hlo hhi hst hrev hv
+  simp only [fuseApply, FuseTarget.original, LoopN.stmt, if_true]
+  simp only [List.mem_append, eVars_eq, rVars_eq, wVars_eq] at hv2 hb h12 h21
+  exact fuse_indep_sound v1 lo1 hi1 st1 b1 b2 hv2
+    (fun x hx => hb x (by rcases hx with h | h | h <;> simp [h])) h12 h21 σ
+
+/-- non-vacuity: `do i=n,m,2: a(i)=b(i)+i` and `do i=n,m,2: c(i)=b(i)*2` are accepted and independent -/
+example :
+    let t : FuseTarget :=
+      ⟨⟨0, .var 4, .var 5, .lit 2, .store1 1 (.var 0) (.bin .add (.idx1 2 (.var 0)) (.var 0))⟩,
+       ⟨0, .var 4, .var 5, .lit 2, .store1 3 (.var 0) (.bin .mul (.idx1 2 (.var 0)) (.lit 2))⟩, true, false⟩
+    fuseValidate t = .ok () ∧ FuseIndep t := by decide
+
+example : fuseValidate ⟨⟨0, .lit 1, .lit 3, .lit 1, .store1 1 (.lit 2) (.var 0)⟩,
+    ⟨0, .lit 1, .lit 3, .lit 1, .store1 3 (.var 0) (.idx1 1 (.lit 2))⟩, true, false⟩ = .error .arrayNoLoopVar := by decide
+example : fuseValidate ⟨⟨0, .lit 1, .lit 3, .lit 1, .assign 2 (.var 0)⟩,
+    ⟨0, .lit 1, .lit 3, .lit 1, .store1 3 (.var 0) (.var 2)⟩, true, false⟩ = .error .scalarDep := by decide
+example : fuseValidate ⟨⟨0, .lit 1, .lit 3, .lit 1, .skip⟩, ⟨0, .lit 1, .lit 4, .lit 1, .skip⟩, true, false⟩
+    = .error .boundsDiffer := by decide
+
+/-! ### LoopSwapTrans -/
+
+/-- full statement for interchange -/
+def C05_swap_statement : Prop :=
+  ∀ t : SwapTarget, swapValidate t = .ok () → ObsEq [] (swapApply t) t.original
+
+/-- `do j=1,2: do i=1,2: m(i,j) = m(i-1,j+1) + 1` (ids: j=0, i=1, m=2) -/
+def swapWitness : SwapTarget :=
+  ⟨0, .lit 1, .lit 2, .lit 1,
+   [.loop 1 (.lit 1) (.lit 2) (.lit 1)
+      (.store2 2 (.var 1) (.var 0)
+        (.bin .add (.idx2 2 (.bin .sub (.var 1) (.lit 1)) (.bin .add (.var 0) (.lit 1))) (.lit 1)))]⟩
+
+/-- `LoopSwapTrans.validate` has no dependence test: the nest is accepted and `m(2,1)` differs -/
+theorem C05_swap_dependence_counterexample :
+    swapValidate swapWitness = .ok () ∧ ¬ ObsEq [] (swapApply swapWitness) swapWitness.original := by
+  refine ⟨by decide, fun h => ?_⟩
+  have := h (storeOf []) 2 2 1 (by decide)
+  revert this
+  decide
+
+theorem C05_swap_statement_false : ¬ C05_swap_statement := fun h =>
+  C05_swap_dependence_counterexample.2 (h swapWitness C05_swap_dependence_counterexample.1)
+
+example : swapValidate ⟨0, .lit 1, .lit 2, .lit 1, [.loop 1 (.lit 1) (.var 0) (.lit 1) .skip]⟩
+    = .error .outerVarInInnerBounds := by decide
+example : swapValidate ⟨0, .lit 1, .lit 2, .lit 1, [.loop 1 (.lit 1) (.lit 2) (.lit 1) .skip, .skip]⟩
+    = .error .notSingleInner := by decide
+
+/-! ### HoistTrans -/
+
+/-- full statement for hoisting -/
+def C05_hoist_statement : Prop :=
+  ∀ t : HoistTarget, hoistValidate t = .ok () → ObsEq [] (hoistApply t) t.original
+
+/-- `do i = 5, 1 ; t = 7 ; a(i) = t` (ids: i=0, a=1, t=2): zero trips -/
+def hoistZeroWitness : HoistTarget :=
+  ⟨0, .lit 5, .lit 1, .lit 1, [], .assign 2 (.lit 7), [.store1 1 (.var 0) (.var 2)]⟩
+
+/-- no trip-count test: the hoisted assignment runs although the loop body never does -/
+theorem C05_hoist_zero_trip_counterexample :
+    hoistValidate hoistZeroWitness = .ok () ∧ ¬ ObsEq [] (hoistApply hoistZeroWitness) hoistZeroWitness.original := by
+  refine ⟨by decide, fun h => ?_⟩
+  have := h (storeOf []) 2 0 0 (by decide)
+  revert this
+  decide
+
+theorem C05_hoist_statement_false : ¬ C05_hoist_statement := fun h =>
+  C05_hoist_zero_trip_counterexample.2 (h hoistZeroWitness C05_hoist_zero_trip_counterexample.1)
+
+example : hoistValidate ⟨0, .lit 1, .lit 5, .lit 1, [], .assign 2 (.var 0), []⟩ = .error .hoistReadsWritten := by decide
+example : hoistValidate ⟨0, .lit 1, .lit 5, .lit 1, [.store1 1 (.var 0) (.var 2)], .assign 2 (.lit 1), []⟩
+    = .error .hoistAccessedBefore := by decide
+example : hoistValidate ⟨0, .lit 1, .lit 5, .lit 1, [], .assign 2 (.lit 1), [.assign 2 (.lit 3)]⟩
+    = .error .hoistOtherWrite := by decide
 
 end C05
